@@ -129,12 +129,22 @@ impl C13 {
                 layout.push(format!("above-heap [{:#x},+0x1000)", base + gap));
             }
         }
+        let mut decoy = 0u64;
+        if rng.below(3) == 0 {
+            // an EMPTY area a little above the break: it occupies no address, the heap grows over it and nothing
+            // that is later done to it (mem_prot on it: the neutral-operations layer) concerns the heap
+            let at = first_break + *rng.pick(&[0x10u64, 0x800, 0x1000, 0x1800, 0x2ff0]);
+            if call(|| ax.mem_init_zero(at, 0)).is_ok() {
+                layout.push(format!("empty-above-break [{:#x},+0)", at));
+                decoy = at;
+            }
+        }
         let nops = rng.range(20, 70);
         let mut counter = k * 10_007;
         for step in 0..nops {
             counter += 1;
             if rng.below(10) == 0 {
-                if let Some(d) = perturb(&mut ax, rng, &Perturb { areas: true, hooks: true, clone: true }) {
+                if let Some(d) = perturb(&mut ax, rng, &Perturb { areas: true, hooks: true, clone: true, decoy }) {
                     return fail(col, "neutral-operation-visible", d, &tail, &layout);
                 }
             }
